@@ -1814,6 +1814,9 @@ def eager_getslice_lambda(op, x):
         expr = ops.getslice(expr, tail)
     if x.var.name in expr.inputs:  # dim is preserved, e.g. x[1:]
         return Lambda(x.var, expr)
+    elif isinstance(head, slice):  # dim is preserved but expr is constant along it
+        size = len(range(*head.indices(x.var.output.size)))
+        return Lambda(Variable(x.var.name, Bint[size]), expr)
     else:  # dim is eliminated, e.g. x[0]
         return expr
 
